@@ -128,7 +128,11 @@ func loadCase(id int, seed int64, out *json.Encoder) {
 	o := nfOf(nf)
 	o.BranchFactor = bf
 	base := &mast.RemoteConfig{KeysLike: 0, ValuesLike: 0, StoreImmutablePartsWith: st}
-	m, err := mast.NewRoot(&o).LoadMast(ctx, base)
+	// the writer works through a node cache; the "-cached" perturbations hand the same (warm) cache to the loader
+	cache := mast.NewNodeCache(1000)
+	wcfg := *base
+	wcfg.NodeCache = cache
+	m, err := mast.NewRoot(&o).LoadMast(ctx, &wcfg)
 	if err != nil {
 		panic(err)
 	}
@@ -152,7 +156,8 @@ func loadCase(id int, seed int64, out *json.Encoder) {
 	other := map[string]string{"bin": "v1", "v1": "bin"}
 
 	perts := []string{"none", "format-bogus", "format-swap", "format-empty", "height+1", "height+2", "height-1", "bf", "order-reversed",
-		"link-missing", "node-garbage", "node-more-values", "node-fewer-values", "node-more-links", "node-fewer-links", "node-unordered", "node-duplicate", "node-unordered-first"}
+		"link-missing", "node-garbage", "node-more-values", "node-fewer-values", "node-more-links", "node-fewer-links", "node-unordered", "node-duplicate", "node-unordered-first",
+		"order-reversed-cached", "height+1-cached", "bf-cached"}
 	for _, pert := range perts {
 		r2 := *root
 		cfg := *base
@@ -203,7 +208,16 @@ func loadCase(id int, seed int64, out *json.Encoder) {
 			}
 		case "bf":
 			r2.BranchFactor = []uint{2, 3, 4, 5, 16}[rng.Intn(5)]
-		case "order-reversed":
+		case "height+1-cached":
+			r2.Height++
+			cfg.NodeCache = cache
+		case "bf-cached":
+			r2.BranchFactor = []uint{2, 3, 4, 5, 16}[rng.Intn(5)]
+			cfg.NodeCache = cache
+		case "order-reversed", "order-reversed-cached":
+			if pert == "order-reversed-cached" {
+				cfg.NodeCache = cache
+			}
 			def := mast.DefaultKeyCompare(json.Marshal)
 			cfg.KeyCompare = func(a, b interface{}) (int, error) { c, err := def(a, b); return -c, err }
 			ev.Rev = true
